@@ -14,7 +14,7 @@
  * frequently aliased.
  *
  * Ladder (DESIGN.md section 5, C01):  bn_digit.h (rung 0) -> bn_digits.h (rung 1, digit arrays)
- * -> bn_struct.h (rung 1, bn_t) -> bn_mul.h (rung 2) -> bn_mod.h (rung 3).
+ * -> bn_struct.h, bn_io.h (rung 1, bn_t) -> bn_mul.h (rung 2) -> bn_mod.h (rung 3).
  */
 #ifndef VF_CONTRACTS_BN_H
 #define VF_CONTRACTS_BN_H
@@ -23,12 +23,14 @@
 #include <sys/types.h>
 #include <errno.h>
 #include <string.h>
+#include "stubs/bn.h"	/* optional libc byte-loop models, see there */
 #include "math/big_num.h"
 #include "specs/bn_spec.h"
 
 #include "contracts/bn_digit.h"
 #include "contracts/bn_digits.h"
 #include "contracts/bn_struct.h"
+#include "contracts/bn_io.h"
 #include "contracts/bn_mul.h"
 #include "contracts/bn_mod.h"
 
